@@ -356,6 +356,28 @@ func genC12(c *Ctx) {
 		})
 		c.Case("pk-concurrent-first-use", "pk.of 0x"+k.Text(16), ans)
 	}
+	// the constants of the library's own source as private keys - decoded, and obtained as the aggregate of two keys:
+	// the public key must be the scalar times the generator for these as for any other (a shortcut that compares the
+	// scalar with a constant - of the wrong form - is wrong at that one value)
+	for _, k := range sourceScalars() {
+		k := k
+		c.Case("pk-of-source-constant/decoded", "pk.of 0x"+k.Text(16), guard(func() string {
+			return "ok " + hx(skFromInt(k).PublicKey().Encode())
+		}))
+		a := c.randScalar()
+		b := new(big.Int).Mod(new(big.Int).Sub(new(big.Int).Add(k, blsR), a), blsR)
+		if b.Sign() == 0 {
+			continue
+		}
+		c.Case("pk-of-source-constant/aggregated", "pk.of 0x"+k.Text(16), guard(func() string {
+			agg, err := crypto.AggregateBLSPrivateKeys([]crypto.PrivateKey{skFromInt(a), skFromInt(b)})
+			if err != nil {
+				return "err"
+			}
+			return "ok " + hx(agg.PublicKey().Encode())
+		}))
+	}
+	c.extra["source_constants_harvested"] = len(sourceConstants())
 	// mapToFr on many lengths (observed through the BLS key generation only indirectly): public API has no direct entry
 	// public keys of chosen scalars on the three curves are covered by C05 (pk.of / ecdsa pkof)
 }
